@@ -62,6 +62,10 @@ def corpus():
     out.append({"kind": "SSC", "sf": base_sf("0.83", "SSC"), "ck": "SSC", "chart": [["BPMS", "0.000=50.000,\n1.000=70"]], "ign": False})
     out.append({"kind": "SSC", "sf": base_sf("0.83", "SSC"), "ck": "SSC", "chart": [["BPMS", "0.000=50.000"], ["DISPLAYBPM", None]], "ign": False})
     out.append({"kind": "SSC", "sf": [["VERSION", "0.83"], ["BPMS", "0=1"], ["DISPLAYBPM", None]], "ck": "none", "chart": [], "ign": False})
+    # loaded from text: a chart that is its own timing source and names a range
+    for d in ("150.000:300.000", "90", "*", "1:2:3"):
+        out.append({"kind": "SSC", "sf": base_sf("0.83", "SSC"), "ck": "SSC", "chart": [["BPMS", "0.000=50.000"], ["DISPLAYBPM", d]], "ign": False, "text": True})
+        out.append({"kind": "SSC", "sf": base_sf("0.83", "SSC")[:-3] + [["DISPLAYBPM", d]], "ck": "none", "chart": [], "ign": False, "text": True})
     return out
 
 
@@ -110,7 +114,7 @@ def gen(rng, i, tier):
             st = rng.choice(["absent", "empty", "value"])
             if st != "absent":
                 chart.append([key, "" if st == "empty" else (rng.choice(["-2.25", "-2.25", ".5", "-.25", "5e-3", "+1.5", " 0.125\n"]) if key == "OFFSET" else (rand_dbpm(rng) or "77"))])
-    return {"kind": kind, "sf": sf, "ck": ck, "chart": chart, "ign": rng.random() < 0.25}
+    return {"kind": kind, "sf": sf, "ck": ck, "chart": chart, "ign": rng.random() < 0.25, "text": rng.random() < 0.3}
 
 
 N_QUICK = len(enumeration()) + 1200
@@ -120,9 +124,19 @@ N_THOROUGH = len(enumeration()) + 150000
 def build(c):
     from simfile.sm import SMSimfile, SMChart
     from simfile.ssc import SSCSimfile, SSCChart
-    sf = (SMSimfile if c["kind"] == "SM" else SSCSimfile)(string="")
-    for kk, vv in c["sf"]:
-        sf[kk] = vv
+    if c.get("text"):
+        # the same properties written out as a file's text and loaded: what a user opening a simfile has in hand
+        par = lambda kk, vv: "#%s;\n" % kk if vv is None else "#%s:%s;\n" % (kk, vv)
+        text = "".join(par(kk, vv) for kk, vv in c["sf"])
+        if c["kind"] == "SSC" and c["ck"] == "SSC":
+            text += "#NOTEDATA:;\n" + "".join(par(kk, vv) for kk, vv in c["chart"]) + "#NOTES:\n0000\n;\n"
+            sf = SSCSimfile(string=text)
+            return sf, sf.charts[0]
+        sf = (SMSimfile if c["kind"] == "SM" else SSCSimfile)(string=text)
+    else:
+        sf = (SMSimfile if c["kind"] == "SM" else SSCSimfile)(string="")
+        for kk, vv in c["sf"]:
+            sf[kk] = vv
     if c["ck"] == "none":
         ch = None
     elif c["ck"] == "SM":
